@@ -299,6 +299,19 @@ def check_two_tables(case, stats):
     r = gh.parse(text)
     if r[0] == "ok" or r[1] != exp[:11]:
         raise Violation(case, "%d ragged tables in one document: errors %r, expected %r" % (k, r[1] if r[0] != "ok" else "accepted", exp[:11]))
+    # the same with the tables being the Examples tables of ONE outline (and of several outlines)
+    for per_outline in (k, 1):
+        lines, exp = ["Feature: f"], []
+        for i in range(k):
+            if i % per_outline == 0:
+                lines += [" Scenario Outline: o%d" % i, "  Given <a>"]
+            lines += ["  Examples: e%d" % i, "   | a | b |", "   | c | d |", "    | e |"]
+            exp.append((len(lines), 5, "(%d:5): %s" % (len(lines), RAGGED)))
+            lines += ["   | f | g | h |"]
+        text2 = "\n".join(lines) + "\n"
+        r = gh.parse(text2)
+        if r[0] == "ok" or r[1] != exp[:11]:
+            raise Violation(case, "%d ragged examples tables (%d per outline): errors %r, expected %r\n%s" % (k, per_outline, r[1] if r[0] != "ok" else "accepted", exp[:11], text2))
 
 
 def unit_shape(a):
